@@ -255,11 +255,14 @@ class ServerProp(Prop):
         end = None
         for ln in lines:
             p = ln.split(' ')
+            if p[0] in ('hang', 'panic'):
+                by.setdefault(-1, []).append(ln)
+                continue
             if p[2] == 'end':
                 end = ln
             else:
                 by.setdefault(int(p[2]), []).append(ln)
-        return [(i, op, by.get(i, [])) for i, op in enumerate(t[3])], end
+        return [(i, op, by.get(i, [])) for i, op in enumerate(t[3])] + ([(-1, [-1], by[-1])] if -1 in by else []), end
 
     def analyse(self, t, lines):
         """bookkeeping from the implementation's own output: who was yielded what, who answered what,
@@ -278,6 +281,9 @@ class ServerProp(Prop):
         flush_drains = []      # (client, bytes received so far, answers supplied so far) at drains right after a flush, no poll between
         quiet_drains = []      # (client, bytes sent by it so far, bytes received by it so far) at drains right after a blocked poll
         for i, op, ls in steps:
+            if op[0] == -1:
+                errs += [(i, ln) for ln in ls]       # the implementation hung or panicked
+                continue
             if op[0] == 1:
                 for ln in ls:
                     sentb[op[1]] = sentb.get(op[1], 0) + int(ln.split(' ')[5])
@@ -621,15 +627,37 @@ class C09(ServerProp):
         for _ in range(800 if tier == 'quick' else 30000):
             h = adversarial(rng)
             out.append(self.mk(h, 0, {'kind': 'witness+adversaries', 'witness': h.witness}))
+        # a client that pipelines requests and never reads answers that exceed its socket buffer; the application then
+        # flushes.  Outside the kernel model (K3): decided on the implementation alone (every call must return, the
+        # witness is still served)
+        for _ in range(4 if tier == 'quick' else 40):
+            h = Hist(rng)
+            w = h.connect()
+            g = h.connect()
+            h.ops.append([11, 4])
+            h.request(g, pipelined=rng.choice([6, 8]), poll_between=False)
+            h.ops.append([11, 8])
+            body = b'0123456789abcdef' * (rng.choice([65536, 131072]) // 16)
+            for _ in range(8):
+                h.ops.append([7, 0, [1, 1, [[0, body]]]])
+                if rng.random() < 0.5:
+                    h.ops.append([11, 4])
+            h.ops.append([11, 8])
+            h.ops.append([8])
+            h.ops.append([11, 8])
+            h.request(w, poll_between=False)
+            h.finish(clients=[w])
+            h.witness = w
+            out.append(self.mk(h, 0, {'kind': 'greedy-never-reads-then-flush', 'witness': w, 'oracle_only': True}))
         return out
 
     def oracle(self, cases, impl):
         v = []
         for cid, t, m in cases:
             a = self.analyse(t, impl.get(cid, []))
-            bad = [e for e in a['errs'] if ' poll ' in e[1]]
+            bad = [e for e in a['errs'] if ' poll ' in e[1] or e[1].startswith(('hang', 'panic'))]
             if bad:
-                v.append(self.viol(t, 'the polling function keeps returning normally', bad[0][1], 'poll-failed'))
+                v.append(self.viol(t, 'the polling function (and every other call) keeps returning normally', bad[0][1], 'poll-failed'))
                 continue
             w = m['witness']
             n = m['sent'].get(w, m['sent'].get(str(w), 0))
